@@ -249,8 +249,41 @@ def inlined(prog, fi, depth=DEPTH, skip=()):
                 return callee
         return None
 
+    def hoist_nested(body, level, stack):
+        """`<stmt using helper(...) inside a larger expression>`  ->  `t = helper(...)` ; `<stmt using t>`  for helpers that
+        need statements (the call is evaluated before the rest of the simple statement can observe anything it changes)"""
+        out = []
+        for st in body:
+            if level > 0 and isinstance(st, (ast.Assign, ast.Return, ast.Expr, ast.AugAssign)) and getattr(st, "value", None) is not None:
+                top = st.value
+                for c in [x for x in ast.walk(top) if isinstance(x, ast.Call) and x is not top]:
+                    callee = resolve(c, stack)
+                    if callee is None:
+                        continue
+                    body_ = _docstring_free(callee.node.body)
+                    if len(body_) == 1 and isinstance(body_[0], ast.Return):
+                        continue                               # single-expression helpers are expanded in place
+                    # not under a lambda / comprehension / conditional evaluation
+                    p_, ok_ = getattr(c, "_parent", None), True
+                    while p_ is not None and p_ is not st:
+                        if isinstance(p_, (ast.Lambda, ast.ListComp, ast.SetComp, ast.DictComp, ast.GeneratorExp, ast.IfExp, ast.BoolOp)):
+                            ok_ = False
+                        p_ = getattr(p_, "_parent", None)
+                    if not ok_ or p_ is None:
+                        continue
+                    _COUNTER[0] += 1
+                    tmp = "inl__%s_%d" % (callee.name.strip("_"), _COUNTER[0])
+                    from .canon import _replace
+                    if _replace(st, c, ast.copy_location(ast.Name(id=tmp, ctx=ast.Load()), c)):
+                        out.append(ast.copy_location(ast.Assign(targets=[ast.Name(id=tmp, ctx=ast.Store())], value=c), st))
+                        changed[0] = True
+            out.append(st)
+        return out
+
     def expand_block(body, level, stack):
         out = []
+        set_parents(ast.Module(body=list(body), type_ignores=[]))
+        body = hoist_nested(body, level, stack)
         for st in body:
             for fld in ("body", "orelse", "finalbody"):
                 if isinstance(getattr(st, fld, None), list) and not isinstance(st, (ast.FunctionDef, ast.ClassDef)):
